@@ -109,8 +109,9 @@ def run_cmd_on(text, cmd, ext='.smt2'):
         e = dict(os.environ)
         e.pop('VERIF_CMDLOG', None)
         e.pop('VERIF_CMD_DELAY', None)
-        p = subprocess.run(list(cmd) + [fn], stdout=subprocess.PIPE, stderr=subprocess.PIPE, text=True, env=e, timeout=60)
-        return p.returncode, p.stdout, p.stderr
+        # bytes, decoded without newline translation: CR and CR LF must stay distinguishable from LF
+        p = subprocess.run(list(cmd) + [fn], stdout=subprocess.PIPE, stderr=subprocess.PIPE, env=e, timeout=60)
+        return p.returncode, p.stdout.decode(errors='backslashreplace'), p.stderr.decode(errors='backslashreplace')
     finally:
         shutil.rmtree(d, ignore_errors=True)
 
